@@ -463,7 +463,25 @@ func verifRunCC(ops []string) string {
 	k := verifNewCC()
 	var out []string
 	for _, op := range ops {
-		evs := k.step(op)
+		var evs []string
+		if op == "W" { // one turn of the goConnect loop
+			pc := k.pc
+			pc.mu.Lock()
+			has := pc.conn != nil
+			pc.mu.Unlock()
+			sub := []string{"d1", "C", "S"}
+			if has {
+				sub = []string{"S"}
+			}
+			for _, o := range sub {
+				evs = append(evs, k.step(o)...)
+				if k.panicked {
+					break
+				}
+			}
+		} else {
+			evs = k.step(op)
+		}
 		if k.panicked {
 			out = append(out, "panic")
 			break
@@ -909,7 +927,7 @@ func verifIsNat(s string) bool {
 
 func verifValidCCOp(op string) bool {
 	switch op {
-	case "F", "U", "B", "S", "C", "D", "G", "X", "d0", "d1":
+	case "F", "U", "B", "S", "C", "D", "G", "X", "W", "d0", "d1":
 		return true
 	}
 	if op == "" {
